@@ -255,33 +255,44 @@ func (d *vmFlowExcl) random(t *testing.T, rnd *rand.Rand) {
 func TestVerifMgrFlowExcl(t *testing.T) {
 	lg := vmOpen(t)
 	d := &vmFlowExcl{log: lg}
-	for _, b := range vmBehaviours(t) {
-		d.start()
-		flushed := false
-		for _, op := range b {
-			flushed = false
-			id := vmStr(op["id"])
-			hep := strings.HasPrefix(id, "h")
-			switch vmStr(op["op"]) {
-			case "update":
-				d.update(id, vmSymAddrs(vmStrs(op["v4"]), vmSym4, hep, 32), vmSymAddrs(vmStrs(op["v6"]), vmSym6, hep, 128), vmFeatOf(op["f"]))
-			case "remove":
-				d.remove(id)
-			case "flush":
-				d.flush(t)
-				flushed = true
-			case "end":
-			default:
-				t.Fatalf("unknown op %v", op)
+	// a panic of the real manager is logged as a "panic" event, which the trace specification never accepts
+	guarded := func(f func()) {
+		defer func() {
+			if rec := recover(); rec != nil {
+				d.log.Emit("panic", map[string]any{"msg": fmt.Sprint(rec)})
 			}
-		}
-		if !flushed {
-			d.flush(t)
-		}
+		}()
+		f()
+	}
+	for _, b := range vmBehaviours(t) {
+		guarded(func() {
+			d.start()
+			flushed := false
+			for _, op := range b {
+				flushed = false
+				id := vmStr(op["id"])
+				hep := strings.HasPrefix(id, "h")
+				switch vmStr(op["op"]) {
+				case "update":
+					d.update(id, vmSymAddrs(vmStrs(op["v4"]), vmSym4, hep, 32), vmSymAddrs(vmStrs(op["v6"]), vmSym6, hep, 128), vmFeatOf(op["f"]))
+				case "remove":
+					d.remove(id)
+				case "flush":
+					d.flush(t)
+					flushed = true
+				case "end":
+				default:
+					t.Fatalf("unknown op %v", op)
+				}
+			}
+			if !flushed {
+				d.flush(t)
+			}
+		})
 	}
 	seed := vmSeed()
 	for i := 0; i < vmN(); i++ {
-		d.random(t, rand.New(rand.NewSource(seed*1000003+int64(i))))
+		guarded(func() { d.random(t, rand.New(rand.NewSource(seed*1000003+int64(i)))) })
 	}
 	lg.Close(t)
 }
